@@ -114,7 +114,10 @@ impl ConstantPattern {
 
     fn matches(&self, node: &Constant) -> bool {
         match node.as_view() {
-            ValueView::FloatTensor(t) => t
+            // Only match scalars. A tensor with one element and more than
+            // zero dimensions can change the rank of a result it is broadcast
+            // with.
+            ValueView::FloatTensor(t) if node.ndim() == 0 => t
                 .item()
                 .is_some_and(|x| (x - self.value).abs() <= self.tolerance),
             _ => false,
